@@ -371,6 +371,9 @@ func (mw *msgWriter) addFiles(files []*File, isAttachment bool) {
 				file.setHeader(HeaderContentID, fmt.Sprintf("<%s>", sanitizeFilename(file.Name)))
 			}
 		}
+		if contentID, ok := file.getHeader(HeaderContentID); ok {
+			file.setHeader(HeaderContentID, mw.encoder.Encode(mw.charset.String(), contentID))
+		}
 		if mw.depth == 0 {
 			headers := make([]string, 0, len(file.Header))
 			for header := range file.Header {
